@@ -198,6 +198,15 @@ class BaseFormOperator(Operator, BaseForm, Counted):
             return self.empty()
         raise NotImplementedError()
 
+    def _ufl_expr_data_equals_(self, other):
+        """Compare the data besides the operands: derivatives, function space, argument slots."""
+        return (
+            self.derivatives == other.derivatives
+            and self.ufl_function_space() == other.ufl_function_space()
+            and len(self._argument_slots) == len(other._argument_slots)
+            and all(a == b for a, b in zip(self._argument_slots, other._argument_slots))
+        )
+
     @property
     def _parent_type(self):
         """Is this a primal or dual expression?"""
